@@ -134,7 +134,8 @@ def dispatch_cases(draw, sh):
 
 # ------------------------------------------------------------------------------
 OUTCOME = st.sampled_from(['ok'] * 10 + ['raise'] * 5 + ['hang'] * 5 + ['badmode'] * 3 +
-                          ['spawn_fail'] * 3 + ['late'] * 2 + ['preempt'] * 2 + ['die'] * 2)
+                          ['spawn_fail'] * 3 + ['late'] * 2 + ['preempt'] * 2 + ['die'] * 2 +
+                          ['quick'] * 3)
 
 
 @st.composite
